@@ -171,7 +171,7 @@ UpdChk ==                                        \* `if !playing && resampler.em
 \* (outside Wide mode only calls that keep the session inside the domain of the statement)
 CanCmd(kind, e) == /\ pc = "idle" /\ nf < MaxFrames /\ ncmd < MaxCmds /\ ncmd < 2 /\ kind \in Cmds
                    /\ nf >= c.at[ncmd + 1] /\ nf < c.at[ncmd + 1] + c.cs
-                   /\ (Wide \/ mon.open \/ ~Upd(mon, e).open)
+                   /\ (Wide \/ mon.open \/ ~ApplyCmd(Upd(mon, e)).open)
 CmdSeekTo(t) ==
   /\ CanCmd("SeekTo", [a |-> "seek_to", t |-> t]) /\ act' = <<"SeekTo", t>>
   /\ cSeekTo' = [on |-> TRUE, v |-> t] /\ ncmd' = ncmd + 1 /\ ev' = [a |-> "seek_to", t |-> t]
@@ -315,7 +315,7 @@ IndexInSlice == (~mon.open /\ playing /\ pc \in {"idle", "frm", "fadv", "proc", 
 \* frames in the resampler window come from inside the slice
 WindowInSlice == ~mon.open => \A j \in 1..4 : win[j].v = 0 \/ (win[j].v - Off - 1 >= 0 /\ win[j].v - Off - 1 < NF)
 \* Stopped only when the window has drained
-StoppedMeansDrained == st = "Stopped" => (~playing /\ tue = 0)
+StoppedMeansDrained == st = "Stopped" => (tue = 0 /\ (SeekRevives \/ ~playing))
 \* every call returns: the model never stays inside a wrap loop forever (checked as a temporal property)
 Terminates == []<>(pc \in {"idle", "dead", "pick1", "pick2", "pick3", "pick4"})
 NoHang == ~(loop # NoLoop /\ loop[1] = loop[2] /\
